@@ -14,7 +14,7 @@ import (
 // H_C11_contain (style P): a real one-repository shard (written by the real writer) with one
 // arbitrary byte at a symbolic position - in the table of contents / trailer (regime 0) or in the
 // body: contents, posting lists, offsets, metadata (regime 1: a stride of positions over the whole
-// file), or with one offset/size field of the table of contents changed by +-1/+-4/-8 [also +8/+-2] (regime 2;
+// file), or with one offset/size field of the table of contents changed by +-1/+-4/-8 or set to 0 [also +8/+-2] (regime 2;
 // positions inside the two JSON metadata sections are skipped) - is loaded the way the loader does. If it loads, it is searched and listed through the
 // sharded searcher's per-shard entry points searchOneShard and listOneShard. No panic escapes
 // (loading has no recover; search and list are contained and report one crash), no loop runs past
@@ -35,9 +35,14 @@ func H_C11_contain() {
 		// still lies inside the file but no longer has the length the other sections imply
 		fields := index.VerifTOCFields(data)
 		pos = fields[verifrt.Concretize(verifrt.IntRange("field", 0, len(fields)-1))] + 3 // low-order byte
-		deltas := []int{-4, -1, 1, 4, -8, 8, -2, 2}
-		d := deltas[verifrt.Concretize(verifrt.IntRange("delta", 0, verifrt.Param("deltas", 4, 7)))]
-		data[pos] = byte(int(data[pos]) + d)
+		const zero = 1000 // the whole field becomes 0
+		deltas := []int{-4, -1, 1, 4, -8, zero, 8, -2, 2}
+		d := deltas[verifrt.Concretize(verifrt.IntRange("delta", 0, verifrt.Param("deltas", 5, 8)))]
+		if d == zero {
+			data[pos-3], data[pos-2], data[pos-1], data[pos] = 0, 0, 0, 0
+		} else {
+			data[pos] = byte(int(data[pos]) + d)
+		}
 		pos = -1
 	}
 	if pos >= 0 {
